@@ -278,7 +278,10 @@ func C11(tier common.Tier) int {
 	drv.ParallelDo(raceRuns, 4, func(i int) {
 		dir := fmt.Sprintf("%s/p%d", root, i%len(progs))
 		o := drv.Run(drv.Req{Driver: drv.Standalone, Dir: dir, Race: true, Env: map[string]string{"GORACE": "halt_on_error=0"}})
-		if strings.Contains(o.Stderr, "DATA RACE") {
+		if strings.Contains(o.Stderr, "DATA RACE") && !strings.Contains(o.Stderr, "a14e/gogreement/src") {
+			// a race that does not involve GoGreement's own code (driver / toolchain): recorded, not judged
+			run.Count("races_outside_gogreement_not_judged", 1)
+		} else if strings.Contains(o.Stderr, "DATA RACE") {
 			races++
 			i0 := strings.Index(o.Stderr, "DATA RACE")
 			end := i0 + 1500
